@@ -1288,6 +1288,7 @@ func isWiringType(n *types.Named) bool {
 // c08Comparators: custom comparators used to restore order after a map range must
 // distinguish any two elements: they must read the field/value that was filled from the map key.
 func c08Comparators(w *World, o *Out, fl *Flow) {
+	selfCmpDone := map[string]bool{}
 	for _, r := range w.mapRanges() {
 		f := r.Parent()
 		if f.Origin() != nil && f.Origin() != f {
@@ -1313,6 +1314,14 @@ func c08Comparators(w *World, o *Out, fl *Flow) {
 			}
 			if cmp == nil || len(cmp.Params) < 2 {
 				continue
+			}
+			// every comparison of the less function sets an element against the *other* element: a component
+			// that compares an element with itself orders nothing and leaves (map) iteration order in place
+			if key := w.FuncKey(f) + "|" + w.FuncKey(cmp); !selfCmpDone[key] {
+				selfCmpDone[key] = true
+				bad := selfComparisons(cmp)
+				o.Check("C08.R2", w.FuncKey(f)+"|comparator sets the first element against the second in every component", len(bad) == 0, w.Pos(s.Instr.Pos()),
+					"a component of the comparator compares an element with itself ("+strings.Join(bad, "; ")+"): elements that tie on the earlier components keep the order the map range produced")
 			}
 			// element type struct? then the comparator's results must depend on a field that is fed by the map key
 			elemT := cmp.Params[0].Type()
@@ -1681,4 +1690,78 @@ func loggerPickedByHelper(v ssa.Value, depth int) bool {
 		}
 	}
 	return true
+}
+
+// selfComparisons lists the comparisons inside a two-parameter less function whose two operands are
+// computed from the same single parameter (required[i][1] < required[i][1]).
+func selfComparisons(cmp *ssa.Function) []string {
+	if len(cmp.Params) < 2 {
+		return nil
+	}
+	memo := map[ssa.Value]int{}
+	var deps func(v ssa.Value, d int) int
+	deps = func(v ssa.Value, d int) int {
+		if m, ok := memo[v]; ok {
+			return m
+		}
+		memo[v] = 0
+		r := 0
+		if p, ok := v.(*ssa.Parameter); ok {
+			for i, q := range cmp.Params {
+				if q == p && i < 2 {
+					r = 1 << i
+				}
+			}
+		} else if in, ok := v.(ssa.Instruction); ok && d < 30 {
+			for _, op := range in.Operands(nil) {
+				if *op != nil {
+					r |= deps(*op, d+1)
+				}
+			}
+			// a local kept in memory (a spilled parameter) holds what was stored into it
+			if a, ok := v.(*ssa.Alloc); ok {
+				for _, ref := range *a.Referrers() {
+					if st, ok := ref.(*ssa.Store); ok && st.Addr == ssa.Value(a) {
+						r |= deps(st.Val, d+1)
+					}
+				}
+			}
+		}
+		memo[v] = r
+		return r
+	}
+	var out []string
+	report := func(x, y ssa.Value, pos token.Pos) {
+		dx, dy := deps(x, 0), deps(y, 0)
+		if dx == dy && (dx == 1 || dx == 2) {
+			out = append(out, cmp.Prog.Fset.Position(pos).String())
+		}
+	}
+	for _, b := range cmp.Blocks {
+		for _, in := range b.Instrs {
+			switch x := in.(type) {
+			case *ssa.BinOp:
+				switch x.Op {
+				case token.LSS, token.GTR, token.LEQ, token.GEQ, token.EQL, token.NEQ:
+					report(x.X, x.Y, x.Pos())
+				}
+			case *ssa.Call:
+				if cal, ok := CalleeOf(x.Common()); ok {
+					switch cal.Name {
+					case "LT", "GT", "LTE", "GTE", "Equal", "Cmp", "Compare", "Before", "After":
+						if args := x.Common().Args; len(args) == 2 {
+							report(args[0], args[1], x.Pos())
+						}
+					}
+				}
+			}
+		}
+	}
+	for i := range out {
+		if j := strings.LastIndex(out[i], "/"); j >= 0 {
+			out[i] = out[i][j+1:]
+		}
+	}
+	sort.Strings(out)
+	return out
 }
